@@ -1,4 +1,4 @@
 SPECIFICATION Spec
-CONSTANTS Callers = {c1, c2, c3}  VMs = {v1, v2, v3}  MaxCalls = 2  PutEarly = FALSE  PutTwice = TRUE
+CONSTANTS Callers = {c1, c2, c3}  VMs = {v1, v2, v3}  MaxCalls = 2  PutEarly = FALSE  PutTwice = TRUE  NewPanics = FALSE
 INVARIANTS ExclusiveVM
 CHECK_DEADLOCK FALSE
